@@ -1,7 +1,11 @@
 #!/bin/bash
-# setup_cmd: build the engine once, offline, from files on disk only.
+# setup_cmd: build the engine, the scc binary and the getrandom shim once, offline, from files on disk.
 set -e
 cd /verif/engine
 export CARGO_NET_OFFLINE=true
 mkdir -p target
 cargo build --release --offline 2>&1 | tail -3
+(cd /repo && cargo build --release --offline -p scc --target-dir /verif/engine/target/scc 2>&1 | tail -2)
+if [ -f /verif/shim/getrandom_seed.c ]; then
+    gcc -shared -fPIC -O1 -o /verif/engine/target/getrandom_seed.so /verif/shim/getrandom_seed.c
+fi
